@@ -3,6 +3,16 @@
 import json, subprocess
 ALL=[f"C{i:02d}" for i in range(1,21)]
 CHECKS={
+ "C01": dict(level="exploration", engine="E1-dfs",
+   technique="deviation-bounded stateless DFS over action sequences on the real poller with two real objects and raw-syscall peers; per-operation callback ledger and poll(2) readiness oracle",
+   text="Every action sequence up to depth 4 (quick) / 5 (thorough) over all 28 unordered pairs of {Dial conn, accepted conn, FIFO read end, FIFO write end, packet conn, listener, AsyncAdapter} on one IO: start read/write/accept/readfrom/writeto (plain, forced-deferred, *All), peer data / half-close / close / hang-up / RST / connect, cancel, close, poll; handler behaviours (re-issue, cancel or close self/other, re-arm on cancellation) as deviations, all combinations up to 1/2. Callback count <=1 at all times, Cancel completes each in-flight op once with a cancellation error, nothing after Close, delivered bytes are the peer's, and after (in-flight+3) polls nothing that poll(2) reports non-blocking may still be in flight.",
+   note="The order of events inside one epoll batch is the kernel's (both start orders are enumerated); readiness per poll(2) is trusted; write-would-block is reached through the forced-deferred path and FIFO hang-ups rather than by filling socket buffers.",
+   design="4/C01, Appendix D"),
+ "C03": dict(level="exploration", engine="E1-dfs",
+   technique="deviation-bounded stateless DFS over the same driver plus timers, posts and failing registrations, with a shadow ledger; signal-interruption cases enumerated with tgkill on a thread observed asleep in epoll_wait",
+   text="Every action sequence up to depth 4/5 over one or two objects plus a timer (1 ms awaited to expiry by the kernel, 10 s never firing), posted handlers, a regular file (EPERM) and descriptors closed underneath (EBADF): Pending() == ledger after every action, every PollOne judged against handlers run and poll(2) on the epoll fd, RunPending called wherever the ledger says it must return (a hang is caught by the worker watchdog). Plus 3 ledger shapes x {RunPending, RunOne, RunOneFor} x 1..2/4 signals delivered while the loop thread sleeps in epoll_wait.",
+   note="The ledger is built from the harness's own actions and callback observations only; ErrTimeout from RunOneFor after an interrupted wait is accepted as the documented benign result; handlers start nothing new inside RunPending.",
+   design="4/C03, Appendix D"),
  "C08": dict(level="model_checking", engine="E2-bfs",
    technique="explicit-state BFS over peer events and local calls on the real Stream in lock-step with an RFC 6455 control-plane model; outbound wire parsed by an independent parser",
    text="Breadth-first search (depth 5 quick; thorough reaches the fixpoint of the abstract state space at depth 6, about 33k states) over 13 peer events (data, pings, pong, six close variants, RSV1 frame, transport EOF/error) and 10 local calls (4 read APIs, Write, AsyncWrite, Flush, AsyncFlush, Close, AsyncClose) from every reachable state; on every transition the complete outbound frame sequence, the call result class, exactly-once callbacks, Pending() and State() are compared with the model.",
